@@ -92,7 +92,9 @@ def logic_case(res, case):
         try:
             sim = LogicSim(c, sims=n, m=m, c_reuse=reuse, strip_forks=strip)
             for k, pos in enumerate(ipos + spos): lsim.assign_codes(sim, pos, vals[k])
-            sim.s_to_c(); sim.c_prop(); sim.c_to_s()
+            sim.s_to_c(); sim.c_prop()
+            if reuse: sim.c_prop()        # the assigned inputs survive a propagation: propagating twice changes nothing
+            sim.c_to_s()
             outs[(reuse, strip)] = np.array(sim.s[1][[*opos, *spos]], copy=True) if (opos + spos) else np.zeros(0)
         except Exception as ex:
             res.violation(key + f'/exception-{type(ex).__name__}', case, f'LogicSim(c_reuse={reuse}, strip_forks={strip}) raised: ' + traceback.format_exc()[-900:])
@@ -231,6 +233,13 @@ def wave_case(res, case):
             o.s[0, pos, :n] = fin[kk][::-1]; o.s[1, pos, :n] = tt[kk] + 0.5; o.s[2, pos, :n] = init[kk][::-1]
         a.s_to_c(); o.s_to_c(); a.c_prop(seed=0); o.c_prop(seed=0); o.c_to_s(); a.c_to_s()
         compare(f'twoobjects-g{int(cuda)}', a, full_c=True)
+    # the input waveforms stay valid after a propagation: a second c_prop() without a new s_to_c() gives the same results (also with memory reuse)
+    for reuse, cuda in ((True, False), (True, True), (False, False)):
+        sim = W.make_sim(c, delays, n, caps=caps, cuda=cuda, reuse=reuse)
+        for kk, pos in enumerate(ipos + spos):
+            sim.s[0, pos, :n] = init[kk]; sim.s[1, pos, :n] = tt[kk]; sim.s[2, pos, :n] = fin[kk]
+        sim.s_to_c(); sim.c_prop(seed=0); sim.c_prop(seed=0); sim.c_to_s()
+        compare(f'twoprop-r{int(reuse)}g{int(cuda)}', sim)
     # a restricted propagation followed by a full one on the same object
     for cuda in (False, True):
         sim = W.make_sim(c, delays, n, caps=caps, cuda=cuda)
@@ -319,7 +328,7 @@ def wave_case(res, case):
 
 
 def finish(agg, tier):
-    need = ['cfg_opt', 'cfg_alloc', 'cfg_perm', 'cfg_sims', 'cfg_dataset', 'cfg_dataset_mixed', 'cfg_twoobjects', 'logic_two_objects', 'cfg_abuf', 'cfg_reuse', 'logic_cases']
+    need = ['cfg_opt', 'cfg_alloc', 'cfg_perm', 'cfg_sims', 'cfg_dataset', 'cfg_dataset_mixed', 'cfg_twoobjects', 'cfg_twoprop', 'logic_two_objects', 'cfg_abuf', 'cfg_reuse', 'logic_cases']
     missing = [k for k in need if not agg.counters.get(k)]
     if missing: raise common.HarnessError(f'vacuity guard: {missing} zero')
     return {}
